@@ -338,6 +338,9 @@ func RawProduceOpt(r *sim.Run, maxTracks, maxSegs, maxFrags, maxSamples int, sty
 	return p, nil
 }
 
+// PermuteTracks is permuteTracks for a whole file whose first boxes are ftyp and moov (the rest is kept as it is).
+func PermuteTracks(t *sim.Tape, file []byte) ([]byte, error) { return permuteTracks(t, file) }
+
 // permuteTracks reorders the trak boxes inside moov and the trex boxes inside mvex (sizes unchanged).
 func permuteTracks(t *sim.Tape, init []byte) ([]byte, error) {
 	top, err := ref.Walk(init, 0, int64(len(init)), true)
